@@ -505,13 +505,26 @@ func init() {
 					return e.ctx.BoolC(true)
 				}
 			}
-			if m := e.prog.LookupMethod(err.T, nil, "Is"); m != nil && m.Signature.Params().Len() == 1 && m.Signature.Results().Len() == 1 {
+			lookup := func(name string) *ssa.Function {
+				// (*ssa.Program).LookupMethod panics when the method set has no such method
+				if e.prog.MethodSets.MethodSet(err.T).Lookup(nil, name) == nil {
+					return nil
+				}
+				return e.prog.LookupMethod(err.T, nil, name)
+			}
+			if m := lookup("Is"); m != nil && m.Signature.Params().Len() == 1 && m.Signature.Results().Len() == 1 {
 				r := e.callFn(th, caller, site, m, []Value{err.V, target}, nil)
 				if t, ok := r.(*smt.Term); ok && t.IsTrue() {
 					return e.ctx.BoolC(true)
 				}
 			}
-			m := e.prog.LookupMethod(err.T, nil, "Unwrap")
+			if p, ok := err.V.(*Pointer); ok && p.Slot != nil && e.wrapped != nil {
+				if w, ok := e.wrapped[p.Slot]; ok {
+					err = w
+					continue
+				}
+			}
+			m := lookup("Unwrap")
 			if m == nil || m.Signature.Results().Len() != 1 {
 				return e.ctx.BoolC(false)
 			}
